@@ -56,6 +56,9 @@
 (*          the CARTESIAN components of the remainder (as written).        *)
 (*          TRUE: argmax over its fractional indices (as documented; any   *)
 (*          of the equal maxima, the last bit of inv() decides).           *)
+(*   NTRYFIX FALSE: find_lattice(vecs, n_try=None) takes n_try = len(vecs) *)
+(*          (as written): 3 for 'col' vectors (shape 3 x N), so only the   *)
+(*          triple (0,1,2) is tried.  TRUE: n_try = vecs.nvectors().       *)
 (*                                                                         *)
 (* invariants / properties (all stated without reference to the steps):    *)
 (*   SameLattice  v = T.v0 with T integer, det T = +-1, in EVERY state     *)
@@ -75,13 +78,16 @@
 (*   FindLatticeOK  what find_lattice returns generates the lattice of all *)
 (*                the vectors given (collinear / coplanar / sublattice /   *)
 (*                too short / too small triples are passed over)           *)
+(*   FindLatticeAnyDir  find_lattice with the default n_try does the same  *)
+(*                for 'col' vectors as for 'row' vectors                   *)
 (*   MinkAlways   NOT promised (LatticeRed_mink.cfg shows the counter-     *)
 (*                example); Emit carries the flag `mink`.                  *)
 (* laws that hold for the code AS WRITTEN (TIES = "even", MODFIX = FALSE): *)
-(*   all but IndexCol (needs COLFIX) and WithvecOK (needs WVFIX); with     *)
-(*   TIES = "any" Variant and NoFlaw need MODFIX.  Configurations:         *)
+(*   all but IndexCol (needs COLFIX), WithvecOK (needs WVFIX) and          *)
+(*   FindLatticeAnyDir (needs NTRYFIX); with TIES = "any" Variant and      *)
+(*   NoFlaw need MODFIX.  Configurations:                                  *)
 (*   _q/_t/_deep (as written except COLFIX, WVFIX), _qf/_tf (all three     *)
-(*   repairs), _asis_col/_asis_wv/_ties/_ties_flaw (one repair missing:    *)
+(*   repairs), _asis_col/_asis_wv/_asis_ntry/_ties/_ties_flaw (one missing:*)
 (*   the counterexample is replayed on the real code), _asis_wv_emit       *)
 (*   (withvec records of the code as written), _ties_fixed, _mink.         *)
 (* Emit: one record per finished case: kind "red" (reduction, probes with  *)
@@ -97,7 +103,7 @@ CONSTANTS CELLS,     \* set of cell names (see CellB)
           CENTS,     \* set of centring numerators c in {0,1}^3 \ {0}:  x = (HWV + c/2) . B
           PROBES,    \* sequence of << m, d >> : vector  m.v0 + d.out/16
           TOLS,      \* sequence of score tolerances in tenths
-          TIES, MODFIX, COLFIX, WVFIX,
+          TIES, MODFIX, COLFIX, WVFIX, NTRYFIX,
           MAXIT      \* 10 in the code
 
 \* ---- the usual cells: reduced integer bases (rows) ---------------------------------------
@@ -317,8 +323,9 @@ FLStatus(vecs, t, n, d) == LET b == FLB(vecs, t)
                                       LET c == MV(ad, vecs[a]) IN c[1] % dt = 0 /\ c[2] % dt = 0 /\ c[3] % dt = 0 })
 IT4 == Iter3d(4)
 IT6 == Iter3d(6)
-FLRun(vecs, n, d) ==
-   LET T == IF Len(vecs) = 4 THEN IT4 ELSE IT6
+IT3 == Iter3d(3)
+FLRun(vecs, n, d, ntry) ==
+   LET T == IF ntry = 3 THEN IT3 ELSE IF ntry = 4 THEN IT4 ELSE IT6
        vv == vecs
        \* the statuses up to and including the first accepted triple (all of them when there is none)
        Go[a \in 1..Len(T)] == LET st == FLStatus(vv, T[a], n, d)
@@ -328,7 +335,10 @@ FLRun(vecs, n, d) ==
        ok == 10 * St[last] > 9 * Len(vv)
    IN [vecs |-> vv, mv2 |-> <<n, d>>, tried |-> SubSeq(T, 1, last), status |-> St,
        found |-> B2I(ok), basis |-> IF ok THEN FLB(vv, T[last]) ELSE Z3]
-FLRuns == << FLRun(FLVecs, 1, 4), FLRun(FL2Vecs, 1, 4), FLRun(FLVecs, 5, 2) >>
+FLRuns == << FLRun(FLVecs, 1, 4, 6), FLRun(FL2Vecs, 1, 4, 4), FLRun(FLVecs, 5, 2, 6) >>
+\* n_try = None with 'col' vectors as written: len() of a 3 x N array
+FLRunsCol3 == << FLRun(FLVecs, 1, 4, 3), FLRun(FL2Vecs, 1, 4, 3), FLRun(FLVecs, 5, 2, 3) >>
+FLRunsColDefault == IF NTRYFIX THEN FLRuns ELSE FLRunsCol3
 \* ---- laws ---------------------------------------------------------------------------------
 Fin1 == (pc = "done" /\ phase = 1) \/ pc = "wv"
 Fin2 == pc = "done" /\ phase = 2
@@ -380,6 +390,7 @@ FindLatticeOK == Fin1 =>
       \* FLStatus counts lattice membership: right because no triple has index > 2
       /\ \A t \in {IT6[a] : a \in 1..Len(IT6)} : Abs(Det(FLB(FLVecs, t))) <= 2 * Abs(Det(v0))
       /\ \A t \in {IT4[a] : a \in 1..Len(IT4)} : Abs(Det(FLB(FL2Vecs, t))) <= 2 * Abs(Det(v0))
+FindLatticeAnyDir == Fin1 => FLRunsColDefault = FLRuns
 \* Minkowski reduction (brute force over coefficients -1..1, sorted by length) - not promised by the code
 LenPerm(A) == CHOOSE p \in {q \in Idx \X Idx \X Idx : q[1] # q[2] /\ q[1] # q[3] /\ q[2] # q[3]} :
                  Norm2(A[p[1]]) <= Norm2(A[p[2]]) /\ Norm2(A[p[2]]) <= Norm2(A[p[3]])
@@ -413,7 +424,7 @@ Emit == /\ Fin1 /\ cent = ZeroV =>
                     mink |-> B2I(IsMink(out)), sorted |-> B2I(SortedLen(out)),
                     probes |-> [n \in 1..Len(PROBES) |-> ProbeRec(n)],
                     score |-> [a \in 1..Len(TOLS) |-> <<TOLS[a], ScoreExp(TOLS[a]), ScoreColAsIs(out, TOLS[a])>>],
-                    modfix |-> B2I(MODFIX), iter3d |-> IT6, fl |-> FLRuns]))
+                    modfix |-> B2I(MODFIX), iter3d |-> IT6, fl |-> FLRuns, flcol3 |-> FLRunsCol3]))
         /\ (Fin2 \/ pc = "badvec") =>
              PrintT("@@" \o ToJson([kind |-> "wv", cell |-> cell, U |-> U, cent |-> cent, B |-> res1, x2 |-> wv.x2,
                     e |-> wv.e, w |-> wv.w, r2 |-> wv.r2, wvfix |-> B2I(WVFIX), bad |-> B2I(pc = "badvec"),
